@@ -1,16 +1,19 @@
 #!/bin/bash
-# usage: check_mutant.sh <ID> [props...]  -- applies the confirmed patch to /repo, runs the quick checks, restores /repo
+# usage: check_mutant.sh <ID> [props...]
+# Applies the seeded change /verif/seeded/<ID>/patch.diff to a scratch worktree of /repo HEAD (never to /repo
+# itself), runs the quick check of the property (or of the listed properties) on that tree, removes the worktree.
 ID=$1; shift
 P=${ID%%-*}
 props="$@"; [ -z "$props" ] && props=$P
-patch=/tmp/sw/$ID.patch
-[ -f /verif/seeded/$ID/patch.diff ] && patch=/verif/seeded/$ID/patch.diff
-cd /repo
-git apply $patch || { echo "$ID APPLY-FAILED"; exit 1; }
+patch=/verif/seeded/$ID/patch.diff
+W=/tmp/sw/m-$ID
+mkdir -p /tmp/sw
+rm -rf $W; git -C /repo worktree prune; git -C /repo worktree add -q --detach $W HEAD || { echo "$ID worktree-failed"; exit 1; }
+( cd $W && git apply $patch ) || { echo "$ID APPLY-FAILED"; git -C /repo worktree remove --force $W; exit 1; }
 for p in $props; do
-  out=$(/verif/bin/govc check --property $p --tier quick --evidence /tmp/sw/evidence 2>&1); rc=$?
+  out=$(/verif/bin/govc check --repo $W --property $p --tier quick --evidence /tmp/sw/evidence-$ID 2>&1); rc=$?
   v=$(echo "$out" | grep -c "^VIOLATION")
-  first=$(echo "$out" | grep "^VIOLATION" | head -2 | sed 's/.*obligation=//' | cut -c1-90 | tr '\n' ';')
+  first=$(echo "$out" | grep "^VIOLATION" | head -3 | sed 's/.*obligation=//' | cut -c1-110 | tr '\n' ';')
   echo "$ID prop=$p rc=$rc violations=$v $first $(echo "$out" | grep '^govc:' | head -1 | cut -c1-120)"
 done
-git -C /repo checkout -- .
+git -C /repo worktree remove --force $W; rm -rf /tmp/sw/evidence-$ID
